@@ -42,15 +42,19 @@ pub enum Mut {
     WrongScriptDataHash,
     AlterCostModel,
     DropCostModel,
+    /// language availability (Babbage): PlutusV1 may not run in a transaction one of whose spent outputs carries an
+    /// inline datum / a reference script; the last key-locked spent output (in body order) is given one
+    InlineDatumOnSpentOutputUnderV1,
+    ScriptRefOnSpentOutputUnderV1,
 }
 
-pub const ALL: [Mut; 33] = [
+pub const ALL: [Mut; 35] = [
     Mut::EmptyInputs, Mut::RemoveInputUtxo, Mut::RemoveCollateralUtxo, Mut::RemoveReferenceUtxo, Mut::DropScriptReference, Mut::SlotPastTtl, Mut::SlotBeforeValidityStart,
     Mut::RaiseMinAdaPerOutput, Mut::LowerMaxValueSize, Mut::EnvNetworkFlip, Mut::BodyNetworkIdWrong, Mut::OutputNetworkWrong,
     Mut::NoCollateralAllowed, Mut::CollateralToScriptAddress, Mut::CollateralWithAssets, Mut::CollateralTooSmall, Mut::CollateralJustBelowMinimum,
     Mut::RaiseCollateralPercentage, Mut::PercentageJustAboveCollateral, Mut::WrongTotalCollateral, Mut::DropNativeScriptOfMint, Mut::DropOneOfSeveralNativeScripts, Mut::DropPlutusScript, Mut::DropDatum,
     Mut::DropRedeemer, Mut::AlterAuxDataKeepHash, Mut::WrongAuxHash, Mut::DropAuxDataKeepHash, Mut::AuxDataWithoutHash, Mut::HashWithoutAuxData, Mut::WrongScriptDataHash,
-    Mut::AlterCostModel, Mut::DropCostModel,
+    Mut::AlterCostModel, Mut::DropCostModel, Mut::InlineDatumOnSpentOutputUnderV1, Mut::ScriptRefOnSpentOutputUnderV1,
 ];
 
 #[derive(Debug, Clone, Serialize, Deserialize)]
@@ -332,6 +336,40 @@ fn apply(m: Mut, spec: &Spec, w: &mut World) -> bool {
             if m == Mut::AlterCostModel { w.ppt.alter_cost_model = Some(ver) } else { w.ppt.drop_cost_model = Some(ver) }
             true
         }
+        Mut::InlineDatumOnSpentOutputUnderV1 | Mut::ScriptRefOnSpentOutputUnderV1 => {
+            if !(plutus && era == EraK::Babbage && !w.f.script_by_reference) {
+                return false;
+            }
+            if forge::plutus_version(era, spec.plutus.as_ref().map(|p| p.version).unwrap_or(1)) != 1 {
+                return false;
+            }
+            let Some(v) = TxView::parse(&w.tx) else { return false };
+            // the last spent output in body order that is key-locked (its owner signs; nothing else about it matters)
+            let order = v.inputs(0);
+            let Some(i) = order.iter().rev().find_map(|(t, ix)| w.f.utxos.iter().position(|u| u.role == "input" && u.key_locked_by.is_some() && u.txid.as_slice() == t.as_slice() && u.idx == *ix)) else { return false };
+            let Ok(n) = cx::read(&w.f.utxos[i].output) else { return false };
+            let mut fields: Vec<(cx::Node, cx::Node)> = if let Some(a) = n.as_array() {
+                if a.len() != 2 {
+                    return false;
+                }
+                vec![(cx::uint(0), a[0].clone()), (cx::uint(1), a[1].clone())]
+            } else if let Some(mm) = n.as_map() {
+                if mm.iter().any(|(k, _)| matches!(k.as_u64(), Some(2) | Some(3))) {
+                    return false;
+                }
+                mm.clone()
+            } else {
+                return false;
+            };
+            if m == Mut::InlineDatumOnSpentOutputUnderV1 {
+                fields.push((cx::uint(2), cx::array(vec![cx::uint(1), cx::tag(24, cx::bytes(&[0x01]))])));
+            } else {
+                let script = cx::write(&cx::array(vec![cx::uint(2), cx::bytes(&[0x4d, 0x01, 0x00, 0x00, 0x33, 0x22, 0x22, 0x00, 0x51, 0x20, 0x01, 0x20, 0x01, 0x11])]));
+                fields.push((cx::uint(3), cx::tag(24, cx::bytes(&script))));
+            }
+            w.f.utxos[i].output = cx::write(&cx::map(fields));
+            true
+        }
     }
 }
 
@@ -439,7 +477,7 @@ fn fit(mut spec: Spec, m: Mut, spare: &forge::PlutusS, salt: u8) -> Spec {
         m,
         Mut::NoCollateralAllowed | Mut::CollateralToScriptAddress | Mut::CollateralWithAssets | Mut::CollateralTooSmall | Mut::RaiseCollateralPercentage
             | Mut::CollateralJustBelowMinimum | Mut::PercentageJustAboveCollateral | Mut::WrongTotalCollateral | Mut::DropPlutusScript | Mut::DropDatum | Mut::DropRedeemer | Mut::WrongScriptDataHash | Mut::RemoveCollateralUtxo
-            | Mut::AlterCostModel | Mut::DropCostModel | Mut::DropScriptReference
+            | Mut::AlterCostModel | Mut::DropCostModel | Mut::DropScriptReference | Mut::InlineDatumOnSpentOutputUnderV1 | Mut::ScriptRefOnSpentOutputUnderV1
     );
     if need_plutus {
         let from = match m {
@@ -467,6 +505,13 @@ fn fit(mut spec: Spec, m: Mut, spare: &forge::PlutusS, salt: u8) -> Spec {
         if matches!(m, Mut::CollateralToScriptAddress | Mut::CollateralWithAssets | Mut::CollateralTooSmall | Mut::CollateralJustBelowMinimum | Mut::PercentageJustAboveCollateral) {
             if let Some(p) = &mut spec.plutus {
                 p.second_collateral = false;
+            }
+        }
+        if matches!(m, Mut::InlineDatumOnSpentOutputUnderV1 | Mut::ScriptRefOnSpentOutputUnderV1) {
+            spec.era = EraK::Babbage;
+            if let Some(p) = &mut spec.plutus {
+                p.version = 1;
+                p.via_reference = false;
             }
         }
         if m == Mut::DropScriptReference {
